@@ -42,6 +42,7 @@ type c09Kind struct{ code, text string }
 var c09Kinds = []c09Kind{
 	{"n0", "0"}, {"n1", "1"}, {"nm", "-1"}, {"nh", "0.5"}, {"nb", "1E+308"}, {"ni", "9007199254740992"},
 	{"ts", `"abc"`}, {"te", `""`}, {"tn", `"12"`}, {"tm", `"-2"`},
+	{"tp", `"("`}, // text that is not a valid regular expression (criteria of COUNTIF & co. are matched as patterns)
 	// multi-byte text: 2-byte runes, 3-byte runes, a 4-byte rune with a combining mark
 	{"u2", `"héllo wörld"`}, {"u3", `"日本語テキスト"`}, {"u4", "\"a😀e\u0301x\""},
 	{"em", ""},
@@ -49,6 +50,14 @@ var c09Kinds = []c09Kind{
 	{"er", "NA()"},
 	{"rg", "A1:B2"}, {"rc", "C1"}, {"re", "D5:E6"},
 	{"ar", "{1,2;3,4}"},
+	{"aj", "{1,2;3}"}, // ragged array constant (Excel rejects it; efp and the evaluator build it)
+}
+
+// criteria texts that are not valid regular expressions after the wildcard translation (unbalanced
+// brackets / parentheses, trailing backslash, "(?", repetition operators), and a criteria table with
+// such a text: used in the criteria-shaped product below only, not in the full product
+var c09CriteriaKinds = []c09Kind{
+	{"m1", `"["`}, {"m2", `"a)"`}, {"m3", "\"x\\\""}, {"m4", `"(?"`}, {"m5", `"*?+{"`}, {"m6", `{1;"("}`},
 }
 
 // reduced dictionary for arity 4
@@ -65,6 +74,11 @@ var c09Kinds4Text = [4][]string{
 
 func c09KindText(code string) (string, bool) {
 	for _, k := range c09Kinds {
+		if k.code == code {
+			return k.text, true
+		}
+	}
+	for _, k := range c09CriteriaKinds {
 		if k.code == code {
 			return k.text, true
 		}
@@ -136,8 +150,32 @@ func c09TxtJob(formula, class string) c09Job {
 	return c09Job{Op: "txt " + hx(formula) + " " + class, Formula: formula, Class: "txt/" + class, Ident: id}
 }
 
+// c09ArrJob: a job that first turns cells into ARRAY formulas (cell, ref, formula triples; an empty ref =
+// ordinary formula) and then evaluates c09Cell0: self- and cyclic references through functions that
+// re-enter the evaluator for the cells of an array formula (ANCHORARRAY).
+func c09ArrJob(cells [][3]string, class string) c09Job {
+	parts := []string{"arr"}
+	for _, c := range cells {
+		parts = append(parts, c[0], c[1], c[2])
+	}
+	spec := strings.Join(parts, "\t")
+	h := sha1.Sum([]byte(spec))
+	return c09Job{Op: "arr " + hx(spec) + " " + class, Formula: spec, Class: "txt/" + class, Ident: "txt/" + class + "#" + hex.EncodeToString(h[:4])}
+}
+
 func c09JobOfLine(line string) (c09Job, bool) {
 	w := strings.Fields(line)
+	if len(w) == 3 && w[0] == "arr" {
+		f := strings.Split(unhx(w[1]), "\t")
+		if len(f) < 4 || f[0] != "arr" || (len(f)-1)%3 != 0 {
+			return c09Job{}, false
+		}
+		var cells [][3]string
+		for i := 1; i+2 < len(f); i += 3 {
+			cells = append(cells, [3]string{f[i], f[i+1], f[i+2]})
+		}
+		return c09ArrJob(cells, w[2]), true
+	}
 	if len(w) >= 2 && w[0] == "fn" {
 		for _, k := range w[2:] {
 			if _, ok := c09KindText(k); !ok {
@@ -184,6 +222,9 @@ func c09Fixture() *xl.File {
 	chk(f.SetCellValue("Sheet2", "A1", 7))
 	chk(f.SetDefinedName(&xl.DefinedName{Name: "NM", RefersTo: "Sheet1!$A$1:$B$2"}))
 	chk(f.SetCellFormula("Sheet1", c09Cell0, "0"))
+	// a two-cell cycle whose visit counters show the MaxCalcIterations the workbook currently carries (c09Observe)
+	chk(f.SetCellFormula("Sheet2", "B5", "B6+1"))
+	chk(f.SetCellFormula("Sheet2", "B6", "B5+1"))
 	return f
 }
 
@@ -202,6 +243,14 @@ func c09Observe(f *xl.File) string {
 		s, _ := f.GetCellStyle("Sheet1", c)
 		fmt.Fprintf(&b, " |%s:%s:%s:%d", c, v, fm, s)
 	}
+	// the workbook-level options as far as they can be observed (option-less reads after an evaluation that passed
+	// per-call options; the observation before the job is the twin that never passed any): RawCellValue through the formatted value of
+	// the styled cell A1 above, MaxCalcIterations through the visit counters of the cycle Sheet2!B5 <-> B6
+	_, trace, _ := xl.VerifC09CalcTrace(f, "Sheet2", "B5")
+	b.WriteString(" |opt:" + trace)
+	// and through the public entry point: the value of the cycle depends on MaxCalcIterations
+	cv, cerr := f.CalcCellValue("Sheet2", "B5")
+	b.WriteString(fmt.Sprintf(" |cyc:%s:%v", cv, cerr))
 	return b.String()
 }
 
@@ -281,8 +330,26 @@ func c09WorkerMain() {
 			continue
 		}
 		status, det, pure := "", 1, 1
-		if err := f.SetCellFormula("Sheet1", c09Cell0, formula); err != nil {
+		arrJob := strings.HasPrefix(formula, "arr\t")
+		var setErr error
+		if arrJob {
+			fl := strings.Split(formula, "\t")
+			for i := 1; i+2 < len(fl) && setErr == nil; i += 3 {
+				if fl[i+1] == "" {
+					setErr = f.SetCellFormula("Sheet1", fl[i], fl[i+2])
+				} else {
+					ft, ref := xl.STCellFormulaTypeArray, fl[i+1]
+					setErr = f.SetCellFormula("Sheet1", fl[i], fl[i+2], xl.FormulaOpts{Ref: &ref, Type: &ft})
+				}
+			}
+		} else {
+			setErr = f.SetCellFormula("Sheet1", c09Cell0, formula)
+		}
+		if setErr != nil {
 			status = "unsettable"
+			if arrJob {
+				f = c09Fixture()
+			}
 		} else {
 			before := c09Observe(f)
 			c09JobCPU.Store(c09CPUNanos())
@@ -293,6 +360,14 @@ func c09WorkerMain() {
 				r2 = r1
 			} else {
 				r2 = evalOnce(formula)
+			}
+			if idx%16 == 0 && !strings.HasPrefix(r1, "panic@") {
+				// per-call options must stay per-call: evaluate once more with options that differ from the
+				// workbook's; the observation below sees RawCellValue / MaxCalcIterations if they were kept
+				func() {
+					defer func() { _ = recover() }()
+					_, _ = f.CalcCellValue("Sheet1", c09Cell0, xl.Options{RawCellValue: true, MaxCalcIterations: 3})
+				}()
 			}
 			c09JobStart.Store(0)
 			status = r1
@@ -305,6 +380,8 @@ func c09WorkerMain() {
 			} else if after := c09Observe(f); after != before {
 				pure = 0
 				f = c09Fixture()
+			} else if arrJob {
+				f = c09Fixture() // other cells were given formulas
 			}
 		}
 		fmt.Fprintf(out, "R %d %s %d %d %d\n", idx, status, det, pure, time.Since(t0).Microseconds())
@@ -718,6 +795,15 @@ func c09Product(names []string, tier string, rng *Rng) []c09Job {
 				}
 			}
 		}
+		// criteria-shaped product: (range, criteria), (range, criteria, range), (range, range, criteria) and
+		// (database, field, criteria table) over ranges / arrays with non-empty cells
+		for _, m := range c09CriteriaKinds {
+			for _, a := range []string{"rg", "rc", "ar"} {
+				jobs = append(jobs, c09FnJob(name, []string{a, m.code}))
+			}
+			jobs = append(jobs, c09FnJob(name, []string{"rg", m.code, "rg"}), c09FnJob(name, []string{"rg", m.code, "em"}),
+				c09FnJob(name, []string{"rg", "rg", m.code}), c09FnJob(name, []string{"ar", "n1", m.code}), c09FnJob(name, []string{"rg", "em", m.code}))
+		}
 		for _, a := range c09Kinds4Text[0] {
 			for _, b := range c09Kinds4Text[1] {
 				for _, c := range c09Kinds4Text[2] {
@@ -832,6 +918,18 @@ func c09TxtJobs(r *Run, rng *Rng, names []string) []c09Job {
 		"INDEX(A1:" + c09Cell0 + ",3,8)", "D1+" + c09Cell0, "NM+" + c09Cell0, "SUM(1:1)", "SUM(A:XFD)", "COUNT(1:1048576)"} {
 		jobs = append(jobs, c09TxtJob(s, "selfref"))
 	}
+	// the same through ARRAY formulas: ANCHORARRAY evaluates the cells of the array formula it is pointed at
+	h, j, k := c09Cell0, "J3", "K3"
+	for _, cells := range [][][3]string{
+		{{h, h + ":" + h, "ANCHORARRAY(" + h + ")"}},                                            // itself
+		{{h, h + ":H4", "SUM(ANCHORARRAY(" + h + "))"}},                                         // itself, two cells
+		{{j, j + ":" + j, "ANCHORARRAY(" + h + ")"}, {h, h + ":" + h, "ANCHORARRAY(" + j + ")"}}, // two-cycle
+		{{j, j + ":" + j, h + "+1"}, {h, "", "ANCHORARRAY(" + j + ")"}},                         // cycle through a plain reference
+		{{k, k + ":" + k, "ANCHORARRAY(" + h + ")"}, {j, j + ":" + j, "ANCHORARRAY(" + k + ")"}, {h, h + ":" + h, "ANCHORARRAY(" + j + ")"}},
+		{{j, j + ":J4", "A1:A2"}, {h, "", "SUM(ANCHORARRAY(" + j + "))"}}, // acyclic control
+	} {
+		jobs = append(jobs, c09ArrJob(cells, "arrself"))
+	}
 	return jobs
 }
 
@@ -913,6 +1011,9 @@ func c09WorkerStreams(r *Run, rng *Rng) {
 		// the nesting discipline the theorem eval_no_panic assumes of the tokenizer, checked on the
 		// efp tokens of EVERY generated formula text (function product, mutations, deep nesting, witnesses)
 		ps := efp.ExcelParser()
+		if strings.HasPrefix(jobs[i].Formula, "arr\t") {
+			continue // several formulas in one job
+		}
 		if toks := ps.Parse(jobs[i].Formula); !c09NestedA(toks) {
 			// not a failure of the property: the formula is outside the theorem's hypothesis (efp emits an
 			// ARRAYROW start for every ';' and for a function literally named ARRAYROW, also outside an array
